@@ -227,8 +227,12 @@ ImplItemRefines == chk.k # "none" =>
     /\ chk.g <=> ~((DevH12Here /\ IsoSubject(chk.k, cfg.meta)) \/ DevH13Here(chk.k))
     /\ (res.v.isUser \/ res.v.isOwner) => (chk.v <=> ~DevH13Here(chk.k))
 \* a document lopdf wrote opens in the ISO reader with the passwords it was written with
-ImplOpens == Opened /\ try \in {pws.user, pws.owner}
+ImplOpens == Opened /\ try \in {pws.user, OwnerEff(cfg.R, pws)}
                => (res.v.isUser \/ res.v.isOwner) /\ res.v.fk = w.lopdf.fk /\ res.v.permsOk
+\* ... and with no other password, except: with Some("") as owner password the empty password is an owner password
+ImplRejects == /\ Opened /\ (res.v.isUser \/ res.v.isOwner) /\ ~(ShouldUser \/ ShouldOwner)
+                    => DevOwnerAbsentHere /\ Canon(cfg.R, try) = Canon(cfg.R, PwE)
+               /\ Opened /\ DevOwnerAbsentHere /\ try = PwE => res.v.isOwner /\ ~ShouldOwner
 
 -----------------------------------------------------------------------------
 (* emission *)
